@@ -28,11 +28,22 @@ impl Collector {
     Arc::new(Collector::default())
   }
   pub fn violation<C: Serialize>(&self, key: &str, what: &str, case: &C) {
+    let case = serde_json::to_value(case).unwrap_or(Value::Null);
+    let size = |v: &Value| {
+      let s = v.to_string();
+      (s.len(), s)
+    };
     let mut m = self.viol.lock().unwrap();
     match m.get_mut(key) {
-      Some(v) => v.2 += 1,
+      Some(v) => {
+        v.2 += 1;
+        if size(&case) < size(&v.1) {
+          v.1 = case;
+          v.0 = what.to_string();
+        }
+      }
       None => {
-        m.insert(key.to_string(), (what.to_string(), serde_json::to_value(case).unwrap_or(Value::Null), 1));
+        m.insert(key.to_string(), (what.to_string(), case, 1));
       }
     }
   }
